@@ -328,12 +328,29 @@ func c05Global(c *Ctx, a *absVariant) {
 	np := a.V.Func("", "newParser")
 	okMake := false
 	if np != nil {
-		ast.Inspect(np, func(nd ast.Node) bool {
-			if kv, ok := nd.(*ast.KeyValueExpr); ok && exprStr(nil, kv.Key) == "globalStore" && strings.HasPrefix(exprStr(nil, kv.Value), "make(") {
-				okMake = true
+		// in newParser itself or in a constructor it calls (newCurrent() …), two levels deep
+		seen := map[string]bool{}
+		var look func(fd *ast.FuncDecl, depth int)
+		look = func(fd *ast.FuncDecl, depth int) {
+			if fd == nil || fd.Body == nil || seen[fd.Name.Name] || depth > 2 {
+				return
 			}
-			return true
-		})
+			seen[fd.Name.Name] = true
+			ast.Inspect(fd, func(nd ast.Node) bool {
+				switch x := nd.(type) {
+				case *ast.KeyValueExpr:
+					if exprStr(nil, x.Key) == "globalStore" && strings.HasPrefix(exprStr(nil, x.Value), "make(") {
+						okMake = true
+					}
+				case *ast.CallExpr:
+					if id, ok := x.Fun.(*ast.Ident); ok {
+						look(a.V.Func("", id.Name), depth+1)
+					}
+				}
+				return true
+			})
+		}
+		look(np, 0)
 	}
 	if !okMake {
 		bad = append(bad, "newParser does not allocate globalStore with make")
